@@ -3,3 +3,7 @@
 uint32_t good2(const char *s) { return ((s[0] & 0x1f) << 6) | (s[1] & 0x3f); }
 uint32_t good3(const char *s) { return ((s[0] & 0x0f) << 12) | ((s[1] & 0x3f) << 6) | (s[2] & 0x3f); }
 uint32_t bad2(const char *s) { return ((s[0] & 0x0f) << 6) | (s[1] & 0x3f); }
+
+/* positive examples for the surrogate-test rule (R12.6): the first is right, the second is the 16-bit mask on a 32-bit value */
+int is_surrogate_ok(int32_t c) { return ((uint32_t)c & 0xFFFFF800) == 0xD800; }
+int is_surrogate_bad(int32_t c) { return (c & 0xF800) == 0xD800; }
